@@ -489,7 +489,17 @@ def configure_executes_only_set(chk: Check) -> None:
         effects.install_config_externals(eng)
         eng.external_values["duckdb.Error"] = builtin_class("DuckDBError")
         eng.contracts[("duckdb_transpiler/Transpiler/operators.py", "register_regex_functions")] = lambda e, conn: None
-        conn = effects.ConnV(":memory:")
+        class RecordingConn:
+            """A connection whose execute() records the text and always succeeds (failure paths are C16's subject)."""
+
+            def _pyvc_getattr(self, e: Any, name: str) -> Any:
+                me = self
+
+                def run(e2: Any, *a: Any, **k: Any) -> Any:
+                    e2.effects.append(("call", f"conn.{name}", a[0] if a else None))
+                    return me
+                return effects.native(run)
+        conn = RecordingConn()
         paths = eng.explore(eng.func(CFG, "configure_duckdb_connection"), [conn])
         chk.under_contract(f, "contract")
         ab = [p for p in paths if p.kind == "abort"]
@@ -591,10 +601,11 @@ def main() -> None:
     OC._TIER[0] = chk.tier
     known, _ = chk._known()
     import os
+    collect_bounded = None
     if os.environ.get("VERIF_SKIP_BOUNDED", "") not in ("", "0"):
         chk.notes.append("bounded tier skipped (VERIF_SKIP_BOUNDED)")
     else:
-        OC.run_bounded(chk, "C15", list(known))
+        collect_bounded = OC.run_bounded(chk, "C15", list(known))       # runs in worker processes while the P tier is decided
     tpl = OC.Templates()
     if tpl.gen_problems:
         chk.notes.append("generator calls that failed: " + "; ".join(tpl.gen_problems[:5]))
@@ -616,6 +627,8 @@ def main() -> None:
     readers = env_read_obligations(chk, docs)
     knob_taint_obligations(chk, readers)
     configure_executes_only_set(chk)
+    if collect_bounded is not None:
+        collect_bounded()
     chk.extra.update(OC.scanned_summary(tpl))
     chk.extra["registry_calls_without_fixed_operand"] = ST.registry_call_arity()
     chk.extra["documented_environment_variables"] = docs
